@@ -541,8 +541,10 @@ def check_memo(ctx, recs_by_cfg, use_driver=True):
                 continue
             meta.append((cfg, idx, m))
             reqs.append("C03 memo real " + sx([[c, k] for c, k in m["reqs"]]))
-    answers = ctx.driver.ask(reqs) if (use_driver and reqs) else [None] * len(reqs)
-    for (cfg, idx, m), ans in zip(meta, answers):
+            reqs.append("C03 memo full " + sx([[c, k] for c, k in m["reqs"]]))
+    raw = ctx.driver.ask(reqs) if (use_driver and reqs) else [None] * len(reqs)
+    answers = list(zip(raw[0::2], raw[1::2]))
+    for (cfg, idx, m), (ans, ans_full) in zip(meta, answers):
         n = len(m["reqs"])
         ctx.count("memo-histories")
         ctx.count("memo-requests", n)
@@ -574,21 +576,29 @@ def check_memo(ctx, recs_by_cfg, use_driver=True):
         if not ans.startswith("ok "):
             ctx.infra_errors.append(f"driver memo: {ans}")
             continue
-        model = parse_sx(ans[3:])
-        miss_model = [int(r[2]) == i for i, r in enumerate(model)]
-        src_model = [int(r[2]) for r in model]
-        if miss_model != m["miss"]:
-            ctx.fail("correspondence", "C03.memo-hit-miss-pattern",
-                     witness={"history": m["desc"], "reqs": m["reqs"], "model_miss": miss_model,
-                              "impl_miss": m["miss"], "config": list(cfg)})
-            continue
-        for i, s in enumerate(src_model):
-            if m["obj"][i] != m["obj"][s]:
-                ctx.fail("correspondence", "C03.memo-object-identity",
-                         witness={"history": m["desc"], "request": i, "model_src": s, "config": list(cfg)})
-                break
-        else:
+        # Two key disciplines are modelled: `real` = make_hash_key as pinned (arguments only) and `full` =
+        # (class, arguments).  The implementation must behave exactly like one of them.
+        verdicts = {}
+        for kind, a_ in (("real", ans), ("full", ans_full)):
+            if a_ is None or not a_.startswith("ok "):
+                continue
+            model = parse_sx(a_[3:])
+            miss_model = [int(r[2]) == i for i, r in enumerate(model)]
+            src_model = [int(r[2]) for r in model]
+            verdicts[kind] = (miss_model == m["miss"] and
+                              all(m["obj"][i] == m["obj"][s_] for i, s_ in enumerate(src_model)), miss_model)
+        if verdicts.get("real", (False,))[0]:
             ctx.count("memo-model-agrees")
+            ctx.count("memo-model-agrees:key=args-only")
+        elif verdicts.get("full", (False,))[0]:
+            ctx.count("memo-model-agrees")
+            ctx.count("memo-model-agrees:key=class+args")
+        else:
+            ctx.fail("correspondence", "C03.memo-hit-miss-pattern",
+                     witness={"history": m["desc"], "reqs": m["reqs"],
+                              "model_miss_args_only": verdicts.get("real", (None, None))[1],
+                              "model_miss_class_args": verdicts.get("full", (None, None))[1],
+                              "impl_miss": m["miss"], "impl_obj": m["obj"], "config": list(cfg)})
 
 
 def check_anf(ctx, recs_by_cfg, use_driver=True):
@@ -714,7 +724,7 @@ def spec_requests(ctx, cs):
 
 def sizes(ctx):
     if ctx.tier == "quick":
-        return 260, 3
+        return 200, 3
     return 5200, 4
 
 
@@ -747,10 +757,12 @@ def correspond(ctx):
     check_memo(ctx, recs)
     check_anf(ctx, recs)
     table_stream(ctx)
+    make_funsor_stream(ctx)
     ctx.assumptions.append("moment_matching is exercised only where it falls back to eager (no Gaussian mixtures, as the "
                            "property states); transcendental ops are outside the exact fragment of Model/Term.lean")
-    ctx.assumptions.append("anf_topological for the queue-based `anf` model is checked at run time per case (topoIds) — the "
-                           "kernel-checked theorem reinterpret_rec_eq_stack takes the topological ordering as hypothesis")
+    ctx.assumptions.append("hash-consing (identity determines the object within one expression) is the hypothesis "
+                           "`Consistent` of stack_reinterpret_eq_rec; the harness observes identities through the dict "
+                           "keys `anf` itself uses")
     ctx.extra["configurations"] = [f"FUNSOR_USE_TCO={a} FUNSOR_TYPECHECK={b}" for a, b in CONFIGS]
 
 
@@ -776,6 +788,113 @@ def table_stream(ctx):
                      witness={"classes": [A.__name__, B.__name__], "args": [repr(w)[:200] for w in wit[:3]]},
                      expected="distinct Memoize keys for requests of different classes",
                      got="equal keys (cache hit returns the other class's result)", python=None)
+
+
+# ---------------------------------------------------------------------------------------------
+# user-defined classes sharing a signature (funsor.make_funsor): how a real key collision arises
+# ---------------------------------------------------------------------------------------------
+
+MAKE_FUNSOR_SNIPPET = """import numpy as np
+from collections import OrderedDict
+import funsor
+from funsor.domains import Bint, Real
+from funsor.tensor import Tensor
+from funsor.terms import Funsor, Number
+from funsor.factory import make_funsor, Fresh
+from funsor.interpretations import memoize
+
+@make_funsor
+def {a}({sig}) -> Fresh[lambda x: x]:
+    return {abody}
+
+@make_funsor
+def {b}({sig}) -> Fresh[lambda x: x]:
+    return {bbody}
+
+args = {args}
+want = {b}(*args)
+with memoize():
+    first = {a}(*args)
+    got = {b}(*args)
+print('without memoize:', want)
+print('with memoize   :', got)
+FAILS = not np.array_equal(np.asarray(want.data), np.asarray(got.data))
+"""
+
+
+def make_funsor_stream(ctx):
+    """Pairs of make_funsor classes with the same field signature, requested with the same arguments under
+    memoize() in both orders and interleaved with repeats; gate: the value of every request is the value the
+    class computes without memoize, repeated identical requests return the identical object."""
+    from funsor.factory import make_funsor, Fresh
+    rng = ctx.rng
+
+    @make_funsor
+    def C03Double(x: Funsor) -> Fresh[lambda x: x]:
+        return x + x
+
+    @make_funsor
+    def C03Negate(x: Funsor) -> Fresh[lambda x: x]:
+        return -x
+
+    @make_funsor
+    def C03AddC(x: Funsor, y: Funsor) -> Fresh[lambda x: x]:
+        return x + y
+
+    @make_funsor
+    def C03MulC(x: Funsor, y: Funsor) -> Fresh[lambda x: x]:
+        return x * y
+
+    pairs = [((C03Double, "x + x"), (C03Negate, "-x"), "x: Funsor", 1),
+             ((C03AddC, "x + y"), (C03MulC, "x * y"), "x: Funsor, y: Funsor", 2)]
+    ins = [("i", 2), ("j", 3)]
+    n = 40 if ctx.tier == "quick" else 400
+    reproduced = None
+    for _ in range(n):
+        (A, abody), (B, bbody), sig, ar = rng.choice(pairs)
+        if rng.random() < 0.5:
+            (A, abody), (B, bbody) = (B, bbody), (A, abody)
+        names = [nm for nm, _ in ins if rng.random() < 0.6]
+        shape = tuple(dict(ins)[nm] for nm in names)
+        data = np.array([rng.choice([-2, -1, 1, 2, 3]) for _ in range(int(np.prod(shape)) if shape else 1)],
+                        dtype=np.float64).reshape(shape)
+        t = Tensor(data, OrderedDict((nm, Bint[dict(ins)[nm]]) for nm in names))
+        args = (t,) * ar
+        script = [A, B, A, B] if rng.random() < 0.5 else [A, A, B, B]
+        want = {cls: cls(*args) for cls in (A, B)}
+        got = []
+        with memoize():
+            for cls in script:
+                got.append(cls(*args))
+        ctx.count("make_funsor-histories")
+        first = {}
+        for i, (cls, r) in enumerate(zip(script, got)):
+            j = first.setdefault(cls, i)
+            if got[j] is not r:
+                ctx.fail("input", "C03.memoize-not-same-object",
+                         witness={"classes": [A.__name__, B.__name__], "script": [c.__name__ for c in script]},
+                         expected="identical object for a repeated identical request", got="a different object")
+            a, b = W.force(want[cls], ins), W.force(r, ins)
+            if a[0] == "value" and b[0] == "value" and W.digest(a[1]) != W.digest(b[1]) and reproduced is None:
+                argsrc = ("(Tensor(np.array(%r), OrderedDict(%s)),) * %d"
+                          % (data.tolist(), ", ".join(f"{nm}=Bint[{dict(ins)[nm]}]" for nm in names), ar))
+                reproduced = {
+                    "witness": {"classes": [A.__name__, B.__name__], "script": [c.__name__ for c in script],
+                                "request": i, "args": argsrc},
+                    "expected": f"{cls.__name__}(*args) = {a[1]['vals']}",
+                    "got": f"under memoize(): {b[1]['vals']} (the object cached for {script[0].__name__})",
+                    "python": MAKE_FUNSOR_SNIPPET.format(a=script[0].__name__, b=cls.__name__, sig=sig,
+                                                         abody=abody if script[0] is A else bbody,
+                                                         bbody=bbody if cls is B else abody, args=argsrc)}
+    what = ("Memoize keys its cache by the arguments only (make_hash_key drops cls): two make_funsor classes with the "
+            "same signature called with the same arguments under memoize() share an entry; the second request "
+            "returns the first class's result")
+    if reproduced is not None:
+        ctx.count("make_funsor-collision-wrong-value")
+        if not ctx.known("KF-memoize-key-cls", True, what):
+            ctx.fail("input", "KF-memoize-key-cls", **reproduced)
+    elif ctx.is_open("KF-memoize-key-cls"):
+        ctx.known("KF-memoize-key-cls", False)
 
 
 def demonstrate_collision(A, B, wit):
@@ -825,6 +944,7 @@ def search(ctx, broken):
         entries, probes, _ = class_table()
         ctx._c03_table = (entries, probes)
         table_stream(ctx)
+        make_funsor_stream(ctx)
     except Exception as e:
         ctx.extra["search_table_error"] = repr(e)[:300]
     if len([f for f in ctx.failures if f.witness is not None]) > before:
